@@ -279,11 +279,16 @@ class ModelMutator(BaseAppStateMutator):
             'new_value': new_value,
         })
 
-    def add_sql(self, mutation, sql):
+    def add_sql(self, mutation, sql, mergeable=False):
         """Adds an operation for executing custom SQL.
 
         This will cause to_sql() to include the provided SQL statements.
         The SQL should be a list of a statements.
+
+        If ``mergeable`` is set, the SQL is known not to touch the model's
+        own table (for instance, creating or dropping the table for a
+        ManyToManyField), and the operation won't prevent the operations
+        around it from being merged into one ALTER TABLE/table rebuild.
         """
         assert not self.finalized
 
@@ -291,6 +296,7 @@ class ModelMutator(BaseAppStateMutator):
             'type': 'sql',
             'mutation': mutation,
             'sql': sql,
+            'mergeable': mergeable,
         })
 
     def run_mutation(self, mutation):
